@@ -46,12 +46,13 @@ func init() {
 			"round-trips of map[K]V other than map[string]string (no flag helper prints them) and the value returned for in-range non-canonical scalar literals are recorded, not judged; out-of-range literals are judged in every position",
 			"texts that are not the canonical form of any value (duplicate set members / map keys, string literals Go cannot unquote) are outside the statement: acceptance is recorded in observed_sets.noncanonical_accepted, not judged",
 			"map texts are lists of independent entries: what parse.Map / StringStringSliceMap return for a list must be the union of what they return for each entry alone (and an error iff some entry fails alone); the meaning of an entry without value text is whatever the code gives it alone",
+			"which literal spells a map key must not matter (integers accept base prefixes): a list that names one key value twice must have the same outcome whether the second mention repeats the spelling or uses another spelling of the same value; what that outcome is (today: an error) is not judged",
 			"map entries whose value list is empty have no text form and are not generated; NaN and -0 are not used as map keys",
 			"int/uint/uintptr are 64 bits wide on this platform",
 		},
 		MinDistinct: map[string]int{"quick": 2500000, "thorough": 2000000},
 		MinCounters: map[string]map[string]int64{
-			"quick":    {"map_entry_lists_checked": 100000, "float32_bit_patterns_roundtripped": 4000000, "comparisons": 5000000, "range_probes_rejected": 2000000, "decorated_literals_accepted": 2000000, "hostile_strings_roundtripped": 5000000},
+			"quick":    {"map_key_spellings_checked": 30000, "map_entry_lists_checked": 100000, "float32_bit_patterns_roundtripped": 4000000, "comparisons": 5000000, "range_probes_rejected": 2000000, "decorated_literals_accepted": 2000000, "hostile_strings_roundtripped": 5000000},
 			"thorough": {"float32_bit_patterns_roundtripped": 4294967296, "comparisons": 60000000, "range_probes_rejected": 24000000, "decorated_literals_accepted": 24000000, "hostile_strings_roundtripped": 60000000},
 		},
 		Plan: func(tier string) fw.Plan {
@@ -584,6 +585,19 @@ func (c c15Coll) eval(e *c15Eval) string {
 			}
 			if !e.wantValue(en.name, c.kind, text, want, gv, err, "") {
 				ok = false
+				continue
+			}
+			// the result belongs to the caller: changing it must not change what the same text parses to next
+			if gv.IsValid() && c15Scribble(gv) {
+				g2, err2 := en.f(text)
+				gv2 := reflect.Value{}
+				if err2 == nil && g2 != nil {
+					gv2 = reflect.ValueOf(g2)
+				}
+				e.count("reparsed_after_modifying_the_previous_result", 1)
+				if !e.wantValue(en.name, c.kind, text, want, gv2, err2, ":after-the-previous-result-was-modified") {
+					ok = false
+				}
 			}
 		}
 	}
@@ -592,6 +606,25 @@ func (c c15Coll) eval(e *c15Eval) string {
 	}
 	e.setAdd("collection_types", c.kind)
 	return helperText
+}
+
+// c15Scribble modifies a parsed collection in place (what a holder of the result may do).
+func c15Scribble(v reflect.Value) bool {
+	switch v.Kind() {
+	case reflect.Map:
+		if v.IsNil() {
+			return false
+		}
+		v.SetMapIndex(reflect.ValueOf("#added-by-the-holder").Convert(v.Type().Key()), reflect.Zero(v.Type().Elem()))
+		return true
+	case reflect.Slice:
+		if v.Len() == 0 {
+			return false
+		}
+		v.Index(0).Set(reflect.Zero(v.Type().Elem()))
+		return true
+	}
+	return false
 }
 
 // evalShrunk runs eval; on failure it looks for a single entry that fails
@@ -1242,6 +1275,7 @@ func runC15(w *fw.Worker) {
 			typ = "map[" + k.name + "]" + v.name
 			text = e.typedMap(k, v, sk, sv)
 			if len(sk) >= 2 {
+				text += "|" + e.mapKeySpelling(k, v, sk[0], sv[0], sv[1])
 				text += "|" + e.mapEntryIndependence(r, k, v, sk, sv)
 			} else {
 				text += "|" + e.ssMapEntryIndependence(r)
